@@ -91,7 +91,8 @@ func checkImmutable(sc scen.Scenario, gs []gsym) (fails []immResult, nodes int, 
 	isolated := scen.RunOne(goja.New(), wprg, ws, wt)
 	s, t := scen.Shared(sc.Shared)
 	hashAll := func() (p, v string, g []uint64, lines []string) {
-		hp := deephash.New()
+		// file.File builds its line-offset table lazily under its own mutex (explored by the scheduler harness)
+		hp := deephash.New("github.com/dop251/goja/file.File.lineOffsets", "github.com/dop251/goja/file.File.lastScannedOffset")
 		hp.Trace = true
 		hp.Add(prg)
 		nodes = hp.Nodes
